@@ -493,3 +493,35 @@ def rule_toggle_chain(ctx, prop):
                                   f"region still open at that point is forgotten, and the element is reformatted", f.loc(t["sp"]), cfg)
         rep.floor("later check_toggle_formatting calls", n, 1, cfg)
     return rep
+
+
+def rule_field_walkers(ctx, prop):
+    """every walk over the fields of a table constructor that formats something inside a field first asks whether the
+    field is ignored (in the ordinary formatter this happens in format_multiline_table / format_field)"""
+    rep = Report(prop, "R-SKIP(g)", "a function that iterates TableConstructor::fields() and hands parts of a field to a formatter "
+                                    "tracks `ignore start` / `ignore end` over the fields and asks should_format_node about each")
+    for cfg, prog in ctx.programs.items():
+        n = 0
+        for f in prog.fns("stylua_lib"):
+            if f.kind == "Closure" or f.impl_trait:
+                continue
+            fam = [f] + [g for g in prog.fns("stylua_lib") if g.path.startswith(f.path + "::{closure")]
+            cs = {callee(t) for g in fam for b, t in g.calls()}
+            if not any(c.endswith("TableConstructor::fields") for c in cs):
+                continue
+            per_field = sorted(c for c in cs if re.search(r"^formatters::.*::(format_[a-z_]+|hang_[a-z_]+)$", c)
+                               and not re.search(r"::format_(multiline|singleline)_table$|::format_contained_span$|::format_token_reference$|"
+                                                 r"::format_symbol$|::format_end_token$", c))
+            if not per_field:
+                continue
+            n += 1
+            ok = any(c == SFN for c in cs) and any(c == TOGGLE for c in cs)
+            rep.inst(f"{f.key} asks about ignored fields before formatting inside them", {"formats_through": [c.split("::")[-1] for c in per_field]},
+                     cfg, ok=ok)
+            if not ok:
+                rep.violation(f"{f.key} field-walk-ignores-directives",
+                              f"{f.path} walks the fields of a table constructor and formats inside them ({[c.split('::')[-1] for c in per_field]}) "
+                              f"without check_toggle_formatting / should_format_node on the field: code inside a field marked "
+                              f"`-- stylua: ignore` is reformatted (e.g. by range formatting with the range inside the field)", f.loc(), cfg)
+        rep.floor("table-field walkers that format inside fields", n, 1, cfg)
+    return rep
